@@ -337,7 +337,7 @@ fn main() {
 		lines = read_case_lines(r);
 	} else {
 		lines.extend(corpus_lines("C20"));
-		let n = a.cases.unwrap_or(if a.tier == "thorough" { 100000 } else { 6000 });
+		let n = a.cases.unwrap_or(if a.tier == "thorough" { 600000 } else { 6000 });
 		let mut rng = Rng::new(a.seed);
 		gen_lines(&mut rng, n, &mut lines);
 	}
